@@ -1,5 +1,8 @@
 import PortusModel.Props.C05
 import PortusModel.Props.C05History
+import PortusModel.Props.C05Loop
+#print axioms Portus.C05.loop_tx_eq_hist_tx
+#print axioms Portus.C05.loop_history_install_before_use
 #print axioms Portus.C05.install_before_use
 #print axioms Portus.C05.install_before_use_sf
 #print axioms Portus.C05.install_before_use_trace
